@@ -25,6 +25,12 @@ CLAIMED["C12"] = dict(text="Bounded symbolic model checking of the real sequence
                   "independently written IUPAC tables and a closed-form tree/offset computation; gen_seq output is read back by the real JSON reader.",
              design="DESIGN.md 4/C12", technique="symbolic execution of the real Python code with z3 (symx) with real files in a per-path temp dir; selector-only",
              note="characters from a stated alphabet (not arbitrary Unicode), sizes as in evidence bounds; statistical residue mixes excluded. " + NOTE_COMMON)
+CLAIMED["C09"] = dict(text="Bounded symbolic model checking of the real parameter resolution: match_dihedral_interaction_types over every atom-type tuple and "
+                  "every pair of table entries (all 16 wildcard masks); read_topology + preprocess on generated topologies (mask, direction, terms, "
+                  "molecule layouts solver-chosen) against an independent least-wildcard oracle; gen_pairs/convert_nonbond_to_sig_eps with symbolic "
+                  "positive reals (nonlinear obligations 4*eps*sig^6 = C6, 4*eps*sig^12 = C12 discharged by z3).",
+             design="DESIGN.md 4/C09", technique="symbolic execution of the real Python code with z3 (symx): selectors for tables, symbolic reals (QF_NRA) for non-bonded values",
+             note="table sizes, type alphabets and molecule layouts as in the evidence bounds; ties between equally specific dihedral types are left open; reals not floats. " + NOTE_COMMON)
 NOT_YET = {}
 def main():
     props = [json.loads(l) for l in open(os.path.join(ROOT, "properties.jsonl"))]
